@@ -166,7 +166,7 @@ def check_isnone(run, F):
                    ms['unwrap'].loc(), 'table %s' % dtree.show(t))
         if 'map' in ms:
             leaf = one_leaf(tbl(ms['map']))
-            want = ('self.map(|a0| IsNone::from_inner(f(a0))).unwrap_or_else(|| NULL)' if opt
+            want = ('self.map(|a0| IsNone::from_inner(f(a0))).unwrap_or(NULL)' if opt
                     else 'IsNone::from_inner(f(self))')
             run.ob('NUL.coherent', ms['map'], key + 'map', leaf == want, ms['map'].loc(),
                    'map = %s' % leaf)
@@ -178,7 +178,7 @@ def check_defaults(run, F):
         'from_opt': 'opt.map_or_else(NULL, IsNone::from_inner)',
         'unwrap': 'self',                      # to_opt().unwrap() with coercions erased
         'not_none': 'VALID(self)',
-        'map': 'self.map(|a0| IsNone::from_inner(f(a0))).unwrap_or_else(|| NULL)',
+        'map': 'self.map(|a0| IsNone::from_inner(f(a0))).unwrap_or(NULL)',
         'vabs': 'self.map(|a0| a0.abs())',
     }
     n = 0
